@@ -1,4 +1,5 @@
 import OASProofs.Lemmas.Kernel
+import OASProofs.Lemmas.Perm
 
 /-!
 # C19  Composition of surfaces and wrappers does not change the physics
@@ -100,6 +101,46 @@ theorem c19_split_ring (vm : Mesh ℝ) (c0 : ℕ) (p : V3 ℝ) (i j : ℕ) :
 theorem c19_split_lattice (nx : ℕ) (u : V3 ℝ) (vm : Mesh ℝ) (c0 : ℕ) (p : V3 ℝ) (i j : ℕ) :
     latticeVel nx u (fun a b => vm a (c0 + b)) 0 p i j = latticeVel nx u vm 0 p i (c0 + j) := by
   simp [latticeVel, ring, trailing, Nat.add_assoc]
+
+/-! ### the order of the surfaces is a re-numbering of the unknowns, nothing else -/
+
+/-- the linear system of the surface list `l` (any number and sizes of surfaces): `Σₙ mtx[m,n] Γₙ = rhs[m]` -/
+def Solves (l : List (Surf ℝ)) (f : Flow ℝ) (gamma : ℕ → ℝ) : Prop :=
+  ∀ m, m < totalPanels l → ∑ n ∈ range (totalPanels l), aic l f m n * gamma n = rhs l f m
+
+/-- **Results do not depend on the order in which the surfaces are listed.**  For every permutation `l'` of the
+surface list `l` there is a bijection `σ` (inverse `τ`) of the global panel indices such that panel `σ m` of `l'`
+is the same panel `(surface, i, j)` as panel `m` of `l`, and, in that numbering: the influence matrices and the
+right-hand sides agree entry by entry; circulations solve one system iff the re-numbered circulations solve the
+other; and every panel of every surface receives the same force (ground effect, symmetry flags, rotation rates
+and sideslip all allowed). -/
+theorem c19_order_independent {l l' : List (Surf ℝ)} (hp : l.Perm l') (f : Flow ℝ) :
+    ∃ σ τ : ℕ → ℕ, (∀ m, τ (σ m) = m) ∧ (∀ m, σ (τ m) = m) ∧
+      (∀ m, locate l' (σ m) = locate l m) ∧
+      (∀ m n, aic l' f (σ m) (σ n) = aic l f m n) ∧
+      (∀ m, rhs l' f (σ m) = rhs l f m) ∧
+      (∀ gamma, Solves l f gamma → Solves l' f (fun k => gamma (τ k))) ∧
+      (∀ gamma m, panelForce l' f (fun k => gamma (τ k)) (σ m) = panelForce l f gamma m) := by
+  obtain ⟨σ, τ, h⟩ := renum_of_perm hp
+  refine ⟨σ, τ, h.left, h.right, h.loc, h.aic_eq f, h.rhs_eq f, ?_, h.panelForce_eq f⟩
+  intro gamma hs m' hm'
+  rw [h.total] at hm' ⊢
+  have hm : τ m' < totalPanels l := by
+    have := h.lt_iff (τ m'); rw [h.right] at this; exact this.1 hm'
+  have e := hs (τ m') hm
+  rw [← h.rhs_eq f, h.right] at e
+  rw [← e, ← h.sum_eq (fun n => aic l' f m' n * gamma (τ n))]
+  apply Finset.sum_congr rfl
+  intro n _
+  simp only [h.left]
+  rw [← h.aic_eq f (τ m') n, h.right]
+
+/-- instance: exchanging two surfaces -/
+theorem c19_swap_two (a b : Surf ℝ) (f : Flow ℝ) (gamma : ℕ → ℝ) (hs : Solves [a, b] f gamma) :
+    ∃ σ τ : ℕ → ℕ, Solves [b, a] f (fun k => gamma (τ k)) ∧
+      ∀ m, panelForce [b, a] f (fun k => gamma (τ k)) (σ m) = panelForce [a, b] f gamma m := by
+  obtain ⟨σ, τ, _, _, _, _, _, h6, h7⟩ := c19_order_independent (List.Perm.swap b a []) f
+  exact ⟨σ, τ, h6 gamma hs, h7 gamma⟩
 
 end C19
 end OAS
